@@ -20,6 +20,7 @@ GNext ==
   \/ T_LoopCheck /\ H([a |-> "T_LoopCheck"])
   \/ T_Fetch /\ H([a |-> "T_Fetch"])
   \/ \E t \in Trials, d \in Decisions : T_Result(t, d) /\ H([a |-> "T_Result", t |-> t, d |-> d])
+  \/ \E t \in Trials, s \in Trials : T_Exploit(t, s) /\ H([a |-> "T_Exploit", t |-> t, s |-> s])
   \/ T_Stop /\ H([a |-> "T_Stop"])
   \/ T_StopDel /\ H([a |-> "T_StopDel"])
   \/ T_Pause /\ H([a |-> "T_Pause"])
@@ -29,7 +30,7 @@ GNext ==
   \/ T_CbComplete /\ H([a |-> "T_CbComplete"])
   \/ T_StatusUpdate /\ H([a |-> "T_StatusUpdate"])
   \/ T_Sched /\ H([a |-> "T_Sched"])
-  \/ T_SuggestNew /\ H([a |-> "T_SuggestNew"])
+  \/ T_SuggestNew /\ H([a |-> "T_SuggestNew", from |-> IF stack = <<>> THEN NoTrial ELSE stack[Len(stack)]])
   \/ T_Add /\ H([a |-> "T_Add"])
   \/ \E t \in Trials : T_SuggestResume(t) /\ H([a |-> "T_SuggestResume", t |-> t])
   \/ T_SuggestNone /\ H([a |-> "T_SuggestNone"])
